@@ -4,7 +4,7 @@ import re
 
 from ..core import AnalysisError
 from .. import pyfront as P
-from .. import wattr, rst
+from .. import wattr, rst, gsa
 
 EXPLANATION = ('Chain closure from the documentation through the comment parser\'s vocabulary and MainTransformer\'s consumption sites to the '
                'attribute table of GIRWriter, for every identifier-level annotation and the three value tags; provenance of every comment-block '
@@ -101,20 +101,19 @@ def check(ctx):
         r1.check(key in keys_by_attr.get(attr, ()), '.%s -> @%s' % (attr, key), w.mod.rel, 1,
                  'GIRWriter does not write %s from the model attribute %s (keys written from it: %s)' % (key, attr, sorted(keys_by_attr.get(attr, ()))),
                  detail=sorted(keys_by_attr.get(attr, ())))
-    # tags
+    # tags (gated summary of _apply_annotations_annotated)
     aa = py.func(MT, 'MainTransformer._apply_annotations_annotated')
-    eff = [e for e in P.effects(aa) if e.kind == 'store']
+    AA = gsa.summarise(ctx, MT, 'MainTransformer._apply_annotations_annotated')
+    nd, bl = re.escape(AA.P(1)), re.escape(AA.P(2))
     tag_elems = dict((e.tag, e) for e in w.elements())
     for tconst, pairs in sorted(TAGS.items()):
-        var = [t.id for t, v, st in P.stores_in(aa) if isinstance(t, ast.Name) and P.src(v) == 'block.tags.get(%s)' % tconst]
-        r1.check(len(var) == 1, '%s tag fetched' % tconst, rel, aa.lineno, 'block.tags.get(%s) not found' % tconst)
-        if len(var) != 1:
-            continue
         for (attr, key), part in zip(pairs, ('value', 'description')):
-            ok = any(e.target == 'node.%s' % attr and e.value == '%s.%s' % (var[0], part) and e.under('%s is not None' % var[0], True) for e in eff)
-            r1.check(ok, '%s.%s -> .%s' % (tconst, part, attr), rel, aa.lineno, 'tag %s %s is not stored into node.%s' % (tconst, part, attr))
+            st = [e for e in gsa.find(AA, 'store', r'^%s\.%s$' % (nd, attr), r'^%s\.tags\.get\(%s\)\.%s$|^%s\.tags\[%s\]\.%s$' % (bl, tconst, part, bl, tconst, part))
+                  if gsa.needs(AA, e, r'\b%s\b' % tconst)]
+            r1.check(bool(st), '%s.%s -> .%s' % (tconst, part, attr), rel, st[0].line if st else aa.lineno, 'tag %s %s is not stored into node.%s (stores: %s)' % (
+                tconst, part, attr, gsa.find(AA, 'store', r'^%s\.%s$' % (nd, attr))))
             if key.startswith('doc-'):
-                okw = key in tag_elems and tag_elems[key].data is not None and tag_elems[key].data.endswith('.%s' % attr)
+                okw = key in tag_elems and tag_elems[key].data is not None and (tag_elems[key].data.endswith('.%s' % attr) or ("'%s'" % attr) in tag_elems[key].data)
             else:
                 okw = key in keys_by_attr.get(attr, ())
             r1.check(okw, '.%s -> %s' % (attr, key), w.mod.rel, 1, 'the writer does not emit %s from %s' % (key, attr))
@@ -127,23 +126,41 @@ def check(ctx):
     at = [e for e in w.elements() if e.tag == 'attribute']
     r1.check(at and sorted(r_.key for r_ in at[0].rows) == ['name', 'value'] and any('attributes.items()' in l for l in at[0].repeat or []), 'attributes -> <attribute name value>', w.mod.rel,
              at[0].line if at else 1, '<attribute> emission changed')
-    r1.check(any(e.target == 'node.skip' and e.value == 'True' and e.gtexts() == ['not (block is None)', 'ANN_SKIP in block.annotations'] for e in eff), '(skip) -> node.skip', rel, aa.lineno,
-             '(skip) store changed')
-    r1.check(any(e.target == 'node.attributes[key]' and e.value == 'value' for e in eff), '(attributes) -> node.attributes', rel, aa.lineno, '(attributes) store changed')
-    for c, attr, extra in (('ANN_CONSTRUCTOR', 'is_constructor', 'isinstance(node, ast.Function)'), ('ANN_METHOD', 'is_method', None)):
-        ok = any(e.target == 'node.%s' % attr and e.value == 'True' and e.under('%s in block.annotations' % c, True) and (extra is None or e.under(extra, True)) for e in eff)
+    sk = [e for e in gsa.find(AA, 'store', r'^%s\.skip$' % nd, r'^True$') if gsa.needs(AA, e, r'\bANN_SKIP\b')]
+    want = gsa.conj(gsa.neg(gsa.atom('%s is None' % AA.P(2))), gsa.atom('ANN_SKIP in %s.annotations' % AA.P(2)))
+    r1.check(bool(sk) and any(gsa.equiv(e.cond, want) or gsa.equiv(e.cond, gsa.conj(gsa.atom(AA.P(2)), gsa.atom('ANN_SKIP in %s.annotations' % AA.P(2)))) for e in sk), '(skip) -> node.skip', rel, aa.lineno,
+             '(skip) store changed: %s' % gsa.find(AA, 'store', r'^%s\.skip$' % nd))
+    r1.check(any(gsa.needs(AA, e, r'\bANN_ATTRIBUTES\b') for e in gsa.find(AA, 'store', r'^%s\.attributes\[' % nd)), '(attributes) -> node.attributes', rel, aa.lineno, '(attributes) store changed')
+    for c, attr, extra in (('ANN_CONSTRUCTOR', 'is_constructor', r'^isinstance\(%s, ast\.Function\)$' % nd), ('ANN_METHOD', 'is_method', None)):
+        ok = any(gsa.needs(AA, e, r'\b%s\b' % c) and (extra is None or gsa.needs(AA, e, extra)) for e in gsa.find(AA, 'store', r'^%s\.%s$' % (nd, attr), r'^True$'))
         r1.check(ok, '(%s) -> node.%s' % (ann_consts[c], attr), rel, aa.lineno, '(%s) role store changed' % ann_consts[c])
 
     # ------------------------------------------------------------------ R2 block-key provenance
     r2 = ctx.rule('R2', 'comment-block lookup keys: built from the annotated node only, parser separators, C name before GType name', floor=16)
     gan = py.func(MT, 'MainTransformer._get_annotation_name')
-    rets = [n for n in P.walk_no_nested(gan) if isinstance(n, ast.Return)]
-    order = [P.src(n.value) for n in sorted(rets, key=lambda n: n.lineno)]
-    r2.check(order == ['node.ctype', 'node.gtype_name', 'node.c_name'], 'annotation name: C type name, then GType name, then c_name', rel, gan.lineno,
-             '_get_annotation_name prefers %s: a type whose GType name differs from its C name (GParamSpecChar / GParamChar) is looked up under the wrong '
+    GA = gsa.summarise(ctx, MT, 'MainTransformer._get_annotation_name')
+    gn = GA.P(1)
+
+    def name_for(ctype_none, gtype_none, registered=True):
+        def dec(a_):
+            if a_ == '%s.ctype is None' % gn:
+                return ctype_none
+            if a_ == '%s.gtype_name is None' % gn:
+                return gtype_none
+            if a_ == 'isinstance(%s, ast.Registered)' % gn:
+                return registered
+            if a_ == 'isinstance(%s, ast.Class)' % gn:
+                return True
+            if a_.startswith('isinstance('):
+                return False
+            return None
+        return [t for t, n, d in gsa.returns_under(GA, dec)]
+    order = [name_for(False, False), name_for(True, False), name_for(True, True)]
+    r2.check(order == [['%s.ctype' % gn], ['%s.gtype_name' % gn], ['%s.c_name' % gn]], 'annotation name: C type name, then GType name, then c_name', rel, gan.lineno,
+             '_get_annotation_name yields %s for (ctype present), (only gtype_name), (neither): a type whose GType name differs from its C name (GParamSpecChar / GParamChar) is looked up under the wrong '
              'name and blocks written against the C name stop applying' % order, detail=order)
-    g0 = [g.text() for g in P.guards(sorted(rets, key=lambda n: n.lineno)[0]) if g.kind == 'if']
-    r2.check(g0 and g0[-1] == 'node.ctype is not None', 'C name used whenever present', rel, gan.lineno, 'first return guarded by %s' % g0)
+    both = name_for(False, True)
+    r2.check(both == ['%s.ctype' % gn], 'C name used whenever present', rel, gan.lineno, 'with a C type name and no GType name the key is %s' % both)
     seps = {}
     pcb = py.func('annotationparser', 'GtkDocCommentBlockParser.parse_comment_block')
     for t, v, st in P.stores_in(pcb):
@@ -201,34 +218,38 @@ def check(ctx):
     # ------------------------------------------------------------------ R3 pairing rules
     r3 = ctx.rule('R3', 'rename-to pairing is mutual and refuses targets already involved; heuristics never overwrite explicit annotations', floor=6)
     rn = py.func(MT, 'MainTransformer._apply_annotation_rename_to')
-    re_ = [e for e in P.effects(rn) if e.kind == 'store']
-    sb = [e for e in re_ if e.target == 'target.shadowed_by']
-    sh = [e for e in re_ if e.target == 'node.shadows']
-    ok = len(sb) == 1 and len(sh) == 1 and sb[0].value == 'node.name' and sh[0].value == 'target.name' and sb[0].gtexts() == sh[0].gtexts()
-    r3.check(ok, 'shadows / shadowed-by stored together and crossing', rel, rn.lineno, 'stores: %s %s' % (sb, sh))
+    RN = gsa.summarise(ctx, MT, 'MainTransformer._apply_annotation_rename_to')
+    rnode = re.escape(RN.P(1))
+    TGT = r'get_by_symbol\(.*ANN_RENAME_TO.*\)'
+    sb = gsa.find(RN, 'store', r'^self\._namespace\.%s\.shadowed_by$' % TGT, r'^%s\.name$' % rnode)
+    sh = gsa.find(RN, 'store', r'^%s\.shadows$' % rnode, r'^self\._namespace\.%s\.name$' % TGT)
+    ok = len(sb) == 1 and len(sh) == 1 and gsa.equiv(sb[0].cond, sh[0].cond)
+    r3.check(ok, 'shadows / shadowed-by stored together and crossing', rel, rn.lineno, 'stores: %s %s (all: %s)' % (sb, sh, gsa.find(RN, 'store', r'\.shadow')))
     if sb:
-        g = sb[0].gtexts()
-        r3.check('not (target.shadowed_by)' in g and 'not (target.shadows)' in g and 'not (not target)' in g, 'target must be found, not shadowed and not shadowing', rel, sb[0].line,
-                 'the pair is stored under %s: the guards must test the TARGET (the symbol that is being shadowed); otherwise a second (rename-to) for the same target '
-                 'overwrites the first and two functions claim the same name' % g, detail=g)
-    tgt = [P.src(v) for t, v, st in P.stores_in(rn) if isinstance(t, ast.Name) and t.id == 'target']
-    r3.check(tgt == ['self._namespace.get_by_symbol(rename_to)'], 'target looked up by the C symbol given', rel, rn.lineno, 'target = %s' % tgt)
+        e = sb[0]
+        tgt = e.target[:-len('.shadowed_by')]
+        T_ = re.escape(tgt)
+        okg = gsa.impossible(RN, e, [(r'^%s\.shadowed_by$' % T_, True)]) and gsa.impossible(RN, e, [(r'^%s\.shadows$' % T_, True)]) and gsa.impossible(RN, e, [(r'^%s$' % T_, False)]) \
+            and gsa.allowed(RN, e, [(r'^%s\.shadow' % T_, False), (r'.', True)])
+        r3.check(okg, 'target must be found, not shadowed and not shadowing', rel, e.line,
+                 'the pair is stored when %s: the guards must test the TARGET (the symbol that is being shadowed); otherwise a second (rename-to) for the same target '
+                 'overwrites the first and two functions claim the same name' % e.when()[:400], detail=e.when()[:400])
+    look = gsa.find(RN, 'call', r'^self\._namespace\.get_by_symbol$')
+    r3.check(bool(look) and all(re.search(r'ANN_RENAME_TO\)?\[0\]$|ANN_RENAME_TO\]\[0\]$', c.args[0]) for c in look if c.args), 'target looked up by the C symbol given', rel, rn.lineno,
+             'target lookups: %s' % [c.value for c in look])
     wf = [e for e in w.by_tag()['function']][0]
     rr = dict((r_.key, r_) for r_ in wf.rows)
     r3.check('shadowed-by' in rr and 'shadows' in rr and rr['shadowed-by'].value.endswith('.shadowed_by') and rr['shadows'].value.endswith('.shadows'), 'writer emits both sides', w.mod.rel, wf.line,
              'shadows rows: %s' % [str(rr.get(k)) for k in ('shadows', 'shadowed-by')])
     # heuristics respect explicit annotations (sibling agreement)
-    for fname, objs in (('_pass3_callable_async_sync', ('node',)), ('_match_class_sync_methods', ('method',)), ('_pass3_callable_async_finish', ('node',)), ('_match_class_async_methods', ('method',))):
-        f = methods.get(fname)
-        if f is None:
+    for fname in ('_pass3_callable_async_sync', '_match_class_sync_methods', '_pass3_callable_async_finish', '_match_class_async_methods'):
+        if fname not in methods:
             raise AnalysisError('%s missing' % fname)
         attr = 'sync_func' if 'sync' in fname.split('async_')[-1] or fname.endswith('sync_methods') else 'finish_func'
-        st = [e for e in P.effects(f) if e.kind == 'store' and e.target in ['%s.%s' % (o, attr) for o in objs]]
-        if not st:
-            continue
-        for e in st:
+        HS = gsa.summarise(ctx, MT, 'MainTransformer.%s' % fname)
+        for e in gsa.find(HS, 'store', r'^\w+\.%s$' % attr):
             o = e.target.split('.')[0]
-            g = e.gtexts()
-            okg = any(('%s.%s is not None' % (o, attr)) in x and x.startswith('not (') for x in g) or any(x == '%s.%s is None' % (o, attr) for x in g)
+            okg = gsa.impossible(HS, e, [(r'^%s\.%s is None$' % (o, attr), False), (r'^%s\.%s$' % (o, attr), True)]) and \
+                any(re.search(r'^%s\.%s( is None)?$' % (o, attr), a_) for a_ in gsa.atoms(e.cond))
             r3.check(okg, '%s: inferred %s only when not annotated' % (fname, attr), rel, e.line,
-                     '%s stores %s under %s: an explicit (%s) annotation is overwritten by the name heuristic' % (fname, e.target, g, attr.replace('_', '-')), detail=g)
+                     '%s stores %s when %s: an explicit (%s) annotation is overwritten by the name heuristic' % (fname, e.target, e.when()[:300], attr.replace('_', '-')), detail=e.when()[:300])
